@@ -921,8 +921,8 @@ def run(ctx):
     must_fail(ctx, "MC_dev_upd.cfg", "RejectClean", "KF-C07-4: update_params_from raises half-way on a circuit holding SWAP / IDEN / a raw gate")
     if not quick:
         must_fail(ctx, "MC_dev_permctrl.cfg", "PermSound", "KF-C07-2: controls are not translated to physical sites")
-        must_fail(ctx, "MC_dev_ctliden.cfg", "QueriesAgree", "KF-C07-5: the reverse light cone drops the tensors of a controlled IDEN (cut wire)")
-        must_fail(ctx, "MC_dev_copy.cfg", "QueriesAgree", "KF-C07-7: copy() loses _marginal_storage_size, sample() on the copy raises")
+        must_fail(ctx, "MC_dev_ctliden.cfg", "QueriesAgree", "pre-fix (0e107742) reverse light cone that drops the tensors of a controlled IDEN (cut wire)")
+        must_fail(ctx, "MC_dev_copy.cfg", "QueriesAgree", "pre-fix (b38acc9f) copy() that loses _marginal_storage_size, sample() on the copy raises")
         must_fail(ctx, "MC_mut_cone.cfg", "QueriesAgree", "mutated reverse light cone that ignores SWAP relabelling")
 
     # 2. S->C: behaviours simulated by TLC, replayed on every class configuration
